@@ -64,6 +64,8 @@ def _base(combo, fault, hs2=1):
     p0 += pre + [req]
     if 'crash' not in fault:
         p0.append(op(op='insp', cid='c0', kind='has_data'))
+        if 'armrun' in fault:
+            p0.append(op(op='ls', store='main', expect='error_dirs'))
         p0.append(op(op='req', cid='c0', task='grp:target', name='grp:target'))
         p0.append(op(op='disarm'))
     p1 = [op(op='build', cid='c1', root=0, render={'form': 'mem'}, pmode=True, store='main'),
